@@ -11,8 +11,8 @@ the real functions against the Lean models `Univers/Text/MavenRange.lean`,
 
 Answers: `ok:<items>` | `err:<ExcClassName>` (items compared as multisets: the range constructor
 sorts), `true|false|err:<ExcClassName>` for the matchers.  Exceptions are compared by exact class
-name, the `TypeError` raised by `sorted()` in the range constructor for NuGet included (the model
-has `nugetSortGuard` for it).
+name.  `ConanException` is the declared error of the conan converter; any other exception outside
+the `ValueError` family is reported as a witness.
 
 Usage:  /venv/bin/python -m harness.corr_mavenconan [--n N] [--seed S] [--umodel PATH]
 Exit status 0 = no disagreement.
@@ -301,7 +301,7 @@ def run(n=2000, seed=0, umodel=None, verbose=True):
             if name in INTERNAL:
                 internal.setdefault((k, name), c)
             elif name not in ("ValueError", "InvalidVersion", "RestrictionParseError", "VersionRangeParseError",
-                              "InvalidVersionRange"):
+                              "InvalidVersionRange", "ConanException"):
                 other_undeclared.setdefault((k, name), c)
         else:
             stats["ok"] += 1
@@ -321,7 +321,7 @@ def run(n=2000, seed=0, umodel=None, verbose=True):
         for k, v in stats["internal_error_witnesses"].items():
             print("  internal error %s witness %s" % (k, v))
         for k, v in stats["other_undeclared_witnesses"].items():
-            print("  not a ValueError %s witness %s" % (k, v))
+            print("  undeclared error %s witness %s" % (k, v))
     return (1 if dis else 0), stats, dis
 
 
